@@ -445,9 +445,12 @@ func (il *inliner) eligible(fs *funcSrc, self *types.Func) bool {
 	if sig == nil {
 		return false
 	}
-	if sig.Variadic() || sig.TypeParams() != nil || sig.RecvTypeParams() != nil {
+	if sig.Variadic() || sig.RecvTypeParams() != nil {
 		return false
 	}
+	// a generic function is inlined with its type parameters replaced by the type arguments
+	// of the call (tryCall); it must not hand its type parameters on to something that needs
+	// them by name (a nested generic call is fine: the arguments are then concrete types)
 	// every parameter named or blank consistently (unnamed parameters cannot be bound)
 	for _, f := range fd.Type.Params.List {
 		if len(f.Names) == 0 {
@@ -771,6 +774,118 @@ func (il *inliner) tryCall(p *packages.Package, file string, s ast.Stmt, call *a
 	if !hyg {
 		dbg("an identifier of the callee resolves differently at the call site")
 		return g, false
+	}
+	if sig.TypeParams() != nil && sig.TypeParams().Len() > 0 {
+		if fs.lit != nil {
+			return g, false
+		}
+		fid, isID := call.Fun.(*ast.Ident)
+		if !isID {
+			dbg("explicitly instantiated generic call")
+			return g, false
+		}
+		inst, has := p.TypesInfo.Instances[fid]
+		if !has || inst.TypeArgs == nil || inst.TypeArgs.Len() != sig.TypeParams().Len() {
+			dbg("no type arguments recorded for the generic call")
+			return g, false
+		}
+		if repl == nil {
+			repl = map[token.Pos]string{}
+		}
+		if imports == nil {
+			imports = map[string]string{}
+		}
+		// the names packages have in the caller's file
+		local := map[*types.Package]string{}
+		for sc := p.Types.Scope().Innermost(call.Pos()); sc != nil; sc = sc.Parent() {
+			for _, n := range sc.Names() {
+				if pn, isPN := sc.Lookup(n).(*types.PkgName); isPN {
+					if _, dup := local[pn.Imported()]; !dup {
+						_, fo := p.Types.Scope().Innermost(call.Pos()).LookupParent(n, call.Pos())
+						if found, _ := fo.(*types.PkgName); found == pn {
+							local[pn.Imported()] = n
+						}
+					}
+				}
+			}
+		}
+		qual := func(other *types.Package) string {
+			if other == p.Types {
+				return ""
+			}
+			if n, ok := local[other]; ok {
+				return n
+			}
+			alias := "pkg__" + sanitizeIdent(other.Path())
+			imports[other.Path()] = alias
+			return alias
+		}
+		args := map[*types.TypeParam]string{}
+		okArgs := true
+		for i := 0; i < sig.TypeParams().Len(); i++ {
+			ta := inst.TypeArgs.At(i)
+			// a type argument that is itself a type parameter (the caller is generic) or a local
+			// type cannot be written down here
+			bad := false
+			var walk func(t types.Type, depth int)
+			walk = func(t types.Type, depth int) {
+				if depth > 6 {
+					bad = true
+					return
+				}
+				switch x := t.(type) {
+				case *types.TypeParam:
+					bad = true
+				case *types.Named:
+					if x.Obj().Pkg() != nil && x.Obj().Parent() != x.Obj().Pkg().Scope() {
+						bad = true
+					}
+					if x.TypeArgs() != nil {
+						for j := 0; j < x.TypeArgs().Len(); j++ {
+							walk(x.TypeArgs().At(j), depth+1)
+						}
+					}
+				case *types.Pointer:
+					walk(x.Elem(), depth+1)
+				case *types.Slice:
+					walk(x.Elem(), depth+1)
+				case *types.Array:
+					walk(x.Elem(), depth+1)
+				case *types.Map:
+					walk(x.Key(), depth+1)
+					walk(x.Elem(), depth+1)
+				case *types.Chan:
+					walk(x.Elem(), depth+1)
+				case *types.Basic:
+				default:
+					bad = true // struct, interface, func literals types: keep it simple
+				}
+			}
+			walk(ta, 0)
+			if bad {
+				okArgs = false
+				break
+			}
+			args[sig.TypeParams().At(i)] = types.TypeString(ta, qual)
+		}
+		if !okArgs {
+			dbg("a type argument cannot be written at the call site")
+			return g, false
+		}
+		ast.Inspect(fs.decl, func(n ast.Node) bool {
+			id, isID := n.(*ast.Ident)
+			if !isID {
+				return true
+			}
+			if tn, isTN := fs.pkg.TypesInfo.Uses[id].(*types.TypeName); isTN {
+				if tp, isTP := tn.Type().(*types.TypeParam); isTP {
+					if txt, has := args[tp]; has {
+						repl[id.Pos()] = txt
+					}
+				}
+			}
+			return true
+		})
 	}
 	g.imports = imports
 	if fs.lit != nil {
